@@ -128,13 +128,14 @@ def main(tier, replay=None):
                 # keys whose owning handler IS installed in the census device (ICD management, time zone store)
                 own = [k for k in keys if k in (265, 266, 268) or 1 <= k <= 262 or k in (267, 269) or 2048 <= k < 2048 + 15]
                 if own:
-                    names.append("factory-reset-leftover")
+                    # the name carries the keys: a key that joins the known ones is a new violation
+                    names.append("factory-reset-leftover:" + "+".join(str(k) for k in own))
                     verdict = "ok"
                     il += "   [keys in rs-matter's own layout left behind: %s]" % own
             if verdict != "ok":
                 names += sorted(set(x.split("@")[0] for x in verdict.split(",")))
         for name in names:
-            if name in KNOWN_CLASSES:
+            if name.split(":")[0] in KNOWN_CLASSES and any(k["match"](name, "") for k in c.known):
                 known_hits[name] = known_hits.get(name, 0) + 1
             else:
                 mon_viol += 1
